@@ -1,5 +1,7 @@
 package anthropic
 
+import "encoding/json"
+
 import "fmt"
 
 // AnthropicRequest represents an Anthropic API request
@@ -67,6 +69,30 @@ type ContentBlock struct {
 	ID        string                 `json:"id,omitempty"`
 	Name      string                 `json:"name,omitempty"`
 	ToolUseID string                 `json:"tool_use_id,omitempty"`
+}
+
+// MarshalJSON writes the members the Anthropic format requires for the block's type even when
+// they are empty: a text block always has "text" (an empty completion is a text block with
+// ""), a tool_use block always has an "input" object (a call without arguments has {}).
+func (b ContentBlock) MarshalJSON() ([]byte, error) {
+	type plain ContentBlock
+	switch b.Type {
+	case "text":
+		return json.Marshal(struct {
+			plain
+			Text string `json:"text"`
+		}{plain(b), b.Text})
+	case "tool_use":
+		input := b.Input
+		if input == nil {
+			input = map[string]interface{}{}
+		}
+		return json.Marshal(struct {
+			plain
+			Input map[string]interface{} `json:"input"`
+		}{plain(b), input})
+	}
+	return json.Marshal(plain(b))
 }
 
 // ImageSource represents image data in content blocks
